@@ -392,8 +392,8 @@ def validate_native(h, results, sample=None, seed=0):
         for r, o in zip(normal, nat):
             d = compare_native(h, r, o); cnt += 1
             if d: mism.append((r, d))
-    for r in odd:
-        o = harness.run_native(h, [(r.entry, [h.tokens[k] for k in r.witness], r.script)], timeout=10)[0]
+    for r in odd[:3]:          # non-returning paths cost a native timeout each: a few representatives
+        o = harness.run_native(h, [(r.entry, [h.tokens[k] for k in r.witness], r.script)], timeout=5)[0]
         d = compare_native(h, r, o); cnt += 1
         if d: mism.append((r, d))
     return cnt, mism
